@@ -93,6 +93,173 @@ class World:
         return rc, so, se, files
 
 
+def world_desc(w):
+    """the world as data, for the replay file"""
+    files = {}
+    for rel in ("txns/a.txn", "txns/sub/b.txn", "all.txn"):
+        files[rel] = open(os.path.join(w.base, rel)).read()
+    return {"kind": w.kind, "only_exports": bool(w.only_exports), "toml": open(os.path.join(w.base, "tackler.toml")).read(), "files": files}
+
+
+def world_from_desc(base, d):
+    """the World of a replay: the stored files under base/ (Git storage: committed and cloned as in World.__init__)"""
+    w = World.__new__(World)
+    w.base, w.kind, w.only_exports = base, d["kind"], bool(d["only_exports"])
+    shutil.rmtree(base, ignore_errors=True)
+    os.makedirs(os.path.join(base, "txns", "sub"))
+    for rel, text in d["files"].items():
+        open(os.path.join(base, rel), "w").write(text)
+    if w.kind == "git":
+        env = dict(os.environ, GIT_AUTHOR_NAME="v", GIT_AUTHOR_EMAIL="v@v", GIT_COMMITTER_NAME="v", GIT_COMMITTER_EMAIL="v@v",
+                   GIT_CONFIG_GLOBAL="/dev/null", GIT_CONFIG_SYSTEM="/dev/null")
+        wk = os.path.join(base, "work")
+        os.makedirs(wk)
+        shutil.copytree(os.path.join(base, "txns"), os.path.join(wk, "txns"))
+        for cmd in (["git", "init", "-q", "-b", "main", "."], ["git", "add", "-A"], ["git", "commit", "-q", "-m", "txns"]):
+            subprocess.run(cmd, cwd=wk, env=env, check=True, capture_output=True)
+        subprocess.run(["git", "clone", "-q", "--bare", wk, os.path.join(base, "repo.git")], env=env, check=True, capture_output=True)
+        shutil.rmtree(wk)
+    open(os.path.join(base, "tackler.toml"), "w").write(d["toml"])
+    w.args0 = ["--config", os.path.join(base, "tackler.toml")]
+    if w.kind == "file":
+        w.args0 += ["--input.file", os.path.join(base, "all.txn")]
+    w.desc = d
+    return w
+
+
+def baseline(w):
+    """the undisturbed run of a world -> (destinations in writing order, expected contents, their sizes)"""
+    rc, so, se, files = w.run("out-base")
+    if rc != 0:
+        raise Infra("baseline run failed: rc=%s %s" % (rc, se[-500:]))
+    SUFS = [x for x in SUFFIXES if not (w.only_exports and x.endswith(".txt"))]     # destinations of this world, in writing order
+    expected = {s: files.get("r." + s) for s in SUFS}
+    if any(v is None for v in expected.values()):
+        raise Infra("baseline run did not produce all outputs: %s" % sorted(files))
+    return SUFS, expected, [len(expected[s]) for s in SUFS]
+
+
+def judge_fsize(run, w, N, result, SUFS, expected, sizes, findings, distinct, terms, tmeta):
+    """a write failure at byte offset N of every destination (RLIMIT_FSIZE = N)"""
+    kind = w.kind
+    rc, so, se, files = result
+    run.cov["evaluations"] += 1
+    ann = announced(so)
+    complete = {s: files.get("r." + s) == expected[s] for s in SUFS}
+    obs = (rc == 0, tuple(a for a, _ in ann), tuple(complete[s] for s in SUFS))
+    distinct.add((kind,) + obs)
+    what = None
+    if rc == 0 and not all(complete[s] for s, _ in ann):
+        what = "run reported success but an announced output is incomplete"
+    elif rc == 0 and not all(complete.values()):
+        what = "run reported success although a destination is missing or incomplete"
+    elif rc != 0 and all(complete.values()):
+        pass   # failing although everything is there: not a C14 violation
+    bad_ann = [s for s, _ in ann if not complete[s]]
+    if what is None and bad_ann:
+        what = "an output was announced although its file is incomplete (%s)" % bad_ann
+    extra_files = [f for f in files if f not in ["r." + s for s in SUFS]]
+    if what is None and extra_files:
+        what = "files other than the destinations were created: %s" % extra_files
+    if what:
+        rep = {"input_storage": kind, "write_fails_at_byte": N, "how": "RLIMIT_FSIZE=%d with SIGXFSZ ignored" % N,
+               "exit_status": rc, "announced": [a for a, _ in ann], "sizes_on_disk": {f: len(b) for f, b in files.items()},
+               "expected_sizes": dict(zip(SUFS, sizes)), "config": open(os.path.join(w.base, "tackler.toml")).read(),
+               "journal": open(os.path.join(w.base, "all.txn")).read()[:3000], "stderr": se[-300:],
+               "world": w.desc, "probe": {"type": "fsize", "N": N}}
+        kf = [f for f in findings if f.get("class") == "unflushed_bufwriter"]
+        if kf and rc == 0:
+            run.known_finding(kf[0]["what"])
+        else:
+            run.violation(what, rep)
+    terms.append("c14_case %s %s %s %s %s" % (g_list([g_nat(x) for x in sizes]), g_nat(N), g_bool(rc == 0),
+                                             g_list([g_nat(SUFS.index(a)) for a, _ in ann]),
+                                             g_list([g_bool(complete[s]) for s in SUFS])))
+    tmeta.append((kind, N, sizes, w.desc))
+    if len(run.cov["samples"]) < 3 and N in (0, sizes[0]):
+        run.cov["samples"].append({"input_storage": kind, "fail_at_byte": N, "exit": rc, "announced": [a for a, _ in ann],
+                                   "complete": complete, "sizes": dict(zip(SUFS, sizes))})
+
+
+def judge_pre(run, w, sub, result, distinct):
+    """pre-existing destinations"""
+    kind = w.kind
+    rc, so, se, files = result
+    run.cov["evaluations"] += 1
+    distinct.add((kind, "pre", sub, rc == 0))
+    bad = [s for s in sub if files.get("r." + s) != ("SENTINEL %s\n" % s).encode()]
+    if bad or rc == 0:
+        run.violation("an existing destination was overwritten/truncated, or the run succeeded although a destination existed",
+                      {"input_storage": kind, "pre_existing": list(sub), "changed": bad, "exit_status": rc,
+                       "announced": announced(so), "config": open(os.path.join(w.base, "tackler.toml")).read(),
+                       "world": w.desc, "probe": {"type": "pre", "sub": list(sub)}})
+
+
+def console_probe(w, N):
+    """standard output redirected to a file that can hold N bytes, or ("devfull") to a full device -> (exit status, bytes written or None)"""
+    cons = os.path.join(w.base, "console.out")
+    if N == "devfull":
+        rc, _, se = run_cli(w.args0, stdout_path="/dev/full")
+        got = None
+    else:
+        rc, _, se = run_cli(w.args0, fsize_limit=N, stdout_path=cons)
+        got = open(cons, "rb").read()
+        os.remove(cons)
+    return rc, got
+
+
+def judge_console(run, w, N, rc0, full_text, rc, got, distinct):
+    kind = w.kind
+    run.cov["evaluations"] += 1
+    distinct.add((kind, "console", N if N == "devfull" else (N >= len(full_text)), rc == 0))
+    if rc0 == 0 and rc == 0 and (got is None or got != full_text):
+        run.violation("console output: the run reported success although standard output could not be written completely",
+                      {"input_storage": kind, "stdout": ("/dev/full" if N == "devfull" else "regular file limited to %s bytes" % N),
+                       "exit_status": rc, "bytes_written": (None if got is None else len(got)), "expected_bytes": len(full_text),
+                       "config": open(os.path.join(w.base, "tackler.toml")).read(),
+                       "world": w.desc, "probe": {"type": "console", "N": N}})
+
+
+def judge_links(run, w, ls, result, distinct):
+    """a destination name occupied by a dangling symbolic link"""
+    kind = w.kind
+    rc, so, se, files = result
+    run.cov["evaluations"] += 1
+    distinct.add((kind, "link", tuple(ls), rc == 0))
+    through = files.get("<outside>", b"")
+    replaced = [x for x in ls if files.get("r." + x) != b"<dangling symlink>"]
+    if rc == 0 or through or replaced:
+        run.violation("a destination occupied by a dangling symbolic link was written through or replaced, or the run reported success",
+                      {"input_storage": kind, "dangling_links_at": ls, "exit_status": rc, "created_outside_output_dir": through.decode(),
+                       "links_replaced": replaced, "announced": announced(so),
+                       "world": w.desc, "probe": {"type": "links", "ls": list(ls)}})
+
+
+def judge_digest(run, w, before):
+    """inputs, configuration and repository are only read"""
+    after = tree_digest(w.base)
+    if before != after:
+        diff = [a for a in after if a not in before] + [b for b in before if b not in after]
+        run.violation("input files, configuration or repository were modified or files were created next to them",
+                      {"input_storage": w.kind, "changed_entries": [d[0] for d in diff][:20],
+                       "world": w.desc, "probe": {"type": "digest"}})
+
+
+def judge_model(run, terms, tmeta):
+    vals, errs = coq_eval("C14", IMPORTS, terms)
+    if errs:
+        raise Infra("coq evaluation failed: " + errs[0])
+    for (kind, N, sizes, desc), v in zip(tmeta, vals):
+        bits = as_N(v)
+        if bits is None:
+            raise Infra("no result")
+        if not (bits & 1):
+            run.cov["disagreements_checked"] += 1
+            run.violation("correspondence broken: Output.run_targets predicts a different outcome than the CLI under a write failure",
+                          {"correspondence": "C14_corr.c14_case", "input_storage": kind, "write_fails_at_byte": N,
+                           "content_sizes": sizes, "world": desc, "probe": {"type": "fsize", "N": N}}, found_input=False)
+
+
 def main(run):
     info = proof_stage(run, "C14", extra_targets=["corr/C14_corr.vo"])
     cli_build()
@@ -107,15 +274,9 @@ def main(run):
     try:
         for wi, (kind, big) in enumerate(kinds):
             w = World(os.path.join(root, "w%d" % wi), run, kind, big)
+            w.desc = world_desc(w)
             before = tree_digest(w.base)
-            rc, so, se, files = w.run("out-base")
-            if rc != 0:
-                raise Infra("baseline run failed: rc=%s %s" % (rc, se[-500:]))
-            SUFS = [x for x in SUFFIXES if not (w.only_exports and x.endswith(".txt"))]     # destinations of this world, in writing order
-            expected = {s: files.get("r." + s) for s in SUFS}
-            if any(v is None for v in expected.values()):
-                raise Infra("baseline run did not produce all outputs: %s" % sorted(files))
-            sizes = [len(expected[s]) for s in SUFS]
+            SUFS, expected, sizes = baseline(w)
             # ---- write failures at byte offset N of every destination (RLIMIT_FSIZE = N)
             offs = set([0, 1, 2, 7, 100, 4095, 4096, 4097, 8191, 8192, 8193, 16384])
             for L in sizes:
@@ -132,42 +293,8 @@ def main(run):
 
             with ThreadPoolExecutor(max_workers=NPROC) as ex:
                 results = list(ex.map(one, offs))
-            for N, (rc, so, se, files) in results:
-                run.cov["evaluations"] += 1
-                ann = announced(so)
-                complete = {s: files.get("r." + s) == expected[s] for s in SUFS}
-                obs = (rc == 0, tuple(a for a, _ in ann), tuple(complete[s] for s in SUFS))
-                distinct.add((kind,) + obs)
-                what = None
-                if rc == 0 and not all(complete[s] for s, _ in ann):
-                    what = "run reported success but an announced output is incomplete"
-                elif rc == 0 and not all(complete.values()):
-                    what = "run reported success although a destination is missing or incomplete"
-                elif rc != 0 and all(complete.values()):
-                    pass   # failing although everything is there: not a C14 violation
-                bad_ann = [s for s, _ in ann if not complete[s]]
-                if what is None and bad_ann:
-                    what = "an output was announced although its file is incomplete (%s)" % bad_ann
-                extra_files = [f for f in files if f not in ["r." + s for s in SUFS]]
-                if what is None and extra_files:
-                    what = "files other than the destinations were created: %s" % extra_files
-                if what:
-                    rep = {"input_storage": kind, "write_fails_at_byte": N, "how": "RLIMIT_FSIZE=%d with SIGXFSZ ignored" % N,
-                           "exit_status": rc, "announced": [a for a, _ in ann], "sizes_on_disk": {f: len(b) for f, b in files.items()},
-                           "expected_sizes": dict(zip(SUFS, sizes)), "config": open(os.path.join(w.base, "tackler.toml")).read(),
-                           "journal": open(os.path.join(w.base, "all.txn")).read()[:3000], "stderr": se[-300:]}
-                    kf = [f for f in findings if f.get("class") == "unflushed_bufwriter"]
-                    if kf and rc == 0:
-                        run.known_finding(kf[0]["what"])
-                    else:
-                        run.violation(what, rep)
-                terms.append("c14_case %s %s %s %s %s" % (g_list([g_nat(x) for x in sizes]), g_nat(N), g_bool(rc == 0),
-                                                         g_list([g_nat(SUFS.index(a)) for a, _ in ann]),
-                                                         g_list([g_bool(complete[s]) for s in SUFS])))
-                tmeta.append((kind, N, sizes))
-                if len(run.cov["samples"]) < 3 and N in (0, sizes[0]):
-                    run.cov["samples"].append({"input_storage": kind, "fail_at_byte": N, "exit": rc, "announced": [a for a, _ in ann],
-                                               "complete": complete, "sizes": dict(zip(SUFS, sizes))})
+            for N, result in results:
+                judge_fsize(run, w, N, result, SUFS, expected, sizes, findings, distinct, terms, tmeta)
             # ---- pre-existing destinations: every non-empty subset
             subsets = [c for k in range(1, len(SUFS) + 1) for c in itertools.combinations(SUFS, k)]
             if quick and wi > 0:
@@ -179,72 +306,31 @@ def main(run):
 
             with ThreadPoolExecutor(max_workers=NPROC) as ex:
                 presults = list(ex.map(pre_one, subsets))
-            for sub, (rc, so, se, files) in presults:
-                run.cov["evaluations"] += 1
-                distinct.add((kind, "pre", sub, rc == 0))
-                bad = [s for s in sub if files.get("r." + s) != ("SENTINEL %s\n" % s).encode()]
-                if bad or rc == 0:
-                    run.violation("an existing destination was overwritten/truncated, or the run succeeded although a destination existed",
-                                  {"input_storage": kind, "pre_existing": list(sub), "changed": bad, "exit_status": rc,
-                                   "announced": announced(so), "config": open(os.path.join(w.base, "tackler.toml")).read()})
+            for sub, result in presults:
+                judge_pre(run, w, sub, result, distinct)
             # ---- console output is a destination too: standard output redirected to a file that can
             #      hold N bytes, and to a full device; success only with the complete text
             if not w.only_exports:
                 rc0, so0, se0 = run_cli(w.args0)
                 full_text = so0.encode()
-                cons = os.path.join(w.base, "console.out")
                 cn = sorted(set([0, 1, 100, 4095, 4096, 8191, 8192, 8193, len(full_text) - 1, len(full_text), len(full_text) // 2,
                                  max(0, len(full_text) - 4096)] + [run.rng.randint(0, len(full_text)) for _ in range(6 if quick else 200)]))
                 for N in [x for x in cn if x >= 0] + ["devfull"]:
-                    if N == "devfull":
-                        rc, _, se = run_cli(w.args0, stdout_path="/dev/full")
-                        got = None
-                    else:
-                        rc, _, se = run_cli(w.args0, fsize_limit=N, stdout_path=cons)
-                        got = open(cons, "rb").read()
-                        os.remove(cons)
-                    run.cov["evaluations"] += 1
-                    distinct.add((kind, "console", N if N == "devfull" else (N >= len(full_text)), rc == 0))
-                    if rc0 == 0 and rc == 0 and (got is None or got != full_text):
-                        run.violation("console output: the run reported success although standard output could not be written completely",
-                                      {"input_storage": kind, "stdout": ("/dev/full" if N == "devfull" else "regular file limited to %s bytes" % N),
-                                       "exit_status": rc, "bytes_written": (None if got is None else len(got)), "expected_bytes": len(full_text),
-                                       "config": open(os.path.join(w.base, "tackler.toml")).read()})
+                    rc, got = console_probe(w, N)
+                    judge_console(run, w, N, rc0, full_text, rc, got, distinct)
             # ---- a destination name occupied by a dangling symbolic link: the run must fail, the link must stay,
             #      and nothing may be created through it
             link_sets = [[s_] for s_ in SUFS] + [list(SUFS)]
             if quick and wi > 0:
                 link_sets = run.rng.sample(link_sets, min(2, len(link_sets)))
             for ls in link_sets:
-                rc, so, se, files = w.run("out-l" + "".join(str(SUFS.index(x)) for x in ls), links=ls)
-                run.cov["evaluations"] += 1
-                distinct.add((kind, "link", tuple(ls), rc == 0))
-                through = files.get("<outside>", b"")
-                replaced = [x for x in ls if files.get("r." + x) != b"<dangling symlink>"]
-                if rc == 0 or through or replaced:
-                    run.violation("a destination occupied by a dangling symbolic link was written through or replaced, or the run reported success",
-                                  {"input_storage": kind, "dangling_links_at": ls, "exit_status": rc, "created_outside_output_dir": through.decode(),
-                                   "links_replaced": replaced, "announced": announced(so)})
+                result = w.run("out-l" + "".join(str(SUFS.index(x)) for x in ls), links=ls)
+                judge_links(run, w, ls, result, distinct)
             # ---- inputs, configuration and repository are only read
-            after = tree_digest(w.base)
-            if before != after:
-                diff = [a for a in after if a not in before] + [b for b in before if b not in after]
-                run.violation("input files, configuration or repository were modified or files were created next to them",
-                              {"input_storage": kind, "changed_entries": [d[0] for d in diff][:20]})
+            judge_digest(run, w, before)
     finally:
         shutil.rmtree(root, ignore_errors=True)
-    vals, errs = coq_eval("C14", IMPORTS, terms)
-    if errs:
-        raise Infra("coq evaluation failed: " + errs[0])
-    for (kind, N, sizes), v in zip(tmeta, vals):
-        bits = as_N(v)
-        if bits is None:
-            raise Infra("no result")
-        if not (bits & 1):
-            run.cov["disagreements_checked"] += 1
-            run.violation("correspondence broken: Output.run_targets predicts a different outcome than the CLI under a write failure",
-                          {"correspondence": "C14_corr.c14_case", "input_storage": kind, "write_fails_at_byte": N,
-                           "content_sizes": sizes}, found_input=False)
+    judge_model(run, terms, tmeta)
     run.cov["distinct_nontrivial"] = len(distinct)
     run.cov["rule"] = ("tackler CLI built from /repo, 3 input storages (fs, single file, git), 5 destinations; write failure at byte offset N of "
                        "every destination via RLIMIT_FSIZE=N (SIGXFSZ ignored): boundary offsets (0,1,sizes+-1,buffer multiples) + random "
@@ -255,6 +341,55 @@ def main(run):
 
 
 def replay(run, path):
-    j = json.load(open(path))
-    print(json.dumps(j, indent=1, ensure_ascii=False)[:6000])
-    return 0
+    """the stored world (journal files, configuration, input storage) is written again and the stored probe (write failure
+    at byte N / pre-existing destinations / limited console / dangling links / read-only inputs) is run through the tackler
+    binary built from REPO and judged as in the normal run"""
+    j, rp, rc = replay_begin(run, path)
+    if rc is not None:
+        return rc
+    d, pr = rp.get("world"), rp.get("probe")
+    if not (isinstance(d, dict) and isinstance(d.get("files"), dict) and isinstance(pr, dict) and pr.get("type")):
+        return replay_print(j)
+    print(j.get("what"))
+    print("world: input storage %s, only exports %s, journal of %d characters; probe %s" % (d["kind"], d["only_exports"], len(d["files"].get("all.txn", "")), json.dumps(pr)))
+    corr_build("C14")
+    cli_build()
+    root = os.path.join(CACHE, "c14-replay-%d" % os.getpid())
+    findings = [f for f in load_findings("C14") if f.get("status") == "open"]
+    terms, tmeta, distinct = [], [], set()
+    try:
+        w = world_from_desc(os.path.join(root, "w"), d)
+        before = tree_digest(w.base)
+        SUFS, expected, sizes = baseline(w)
+        t = pr["type"]
+        if t in ("fsize", "digest"):
+            for N in ([int(pr["N"])] if t == "fsize" else [0, sizes[0] // 2, sizes[0], max(sizes)]):
+                result = w.run("out-f%d" % N, limit=N)
+                print("write failure at byte %d: exit status %s, announced %s, sizes on disk %s (expected %s)"
+                      % (N, result[0], [a for a, _ in announced(result[1])], {f: len(b) for f, b in result[3].items()}, dict(zip(SUFS, sizes))))
+                judge_fsize(run, w, N, result, SUFS, expected, sizes, findings, distinct, terms, tmeta)
+        if t in ("pre", "digest"):
+            sub = tuple(pr["sub"]) if t == "pre" else tuple(SUFS[:1])
+            result = w.run("out-p" + "".join(str(SUFS.index(s)) for s in sub), pre={s: "SENTINEL %s\n" % s for s in sub})
+            print("pre-existing %s: exit status %s, files %s" % (list(sub), result[0], {f: len(b) for f, b in result[3].items()}))
+            judge_pre(run, w, sub, result, distinct)
+        if t in ("console", "digest") and not w.only_exports:
+            rc0, so0, se0 = run_cli(w.args0)
+            full_text = so0.encode()
+            N = pr["N"] if t == "console" else len(full_text) // 2
+            rc_, got = console_probe(w, N)
+            print("console limited to %s: exit status %s, %s of %d bytes written" % (N, rc_, None if got is None else len(got), len(full_text)))
+            judge_console(run, w, N, rc0, full_text, rc_, got, distinct)
+        if t in ("links", "digest"):
+            ls = list(pr["ls"]) if t == "links" else list(SUFS)
+            result = w.run("out-l" + "".join(str(SUFS.index(x)) for x in ls), links=ls)
+            print("dangling links at %s: exit status %s, files %s" % (ls, result[0], {f: (b[:20].decode("utf-8", "replace") if b.startswith(b"<") else len(b)) for f, b in result[3].items()}))
+            judge_links(run, w, ls, result, distinct)
+        judge_digest(run, w, before)
+    finally:
+        shutil.rmtree(root, ignore_errors=True)
+    judge_model(run, terms, tmeta)
+    want = {"digest": "input files, configuration"}.get(pr["type"])
+    return replay_verdict(run, path, j, "probe %s on the stored world (%s input): outputs complete or the run fails, nothing overwritten or written through, "
+                          "inputs untouched, the model agrees" % (json.dumps(pr), d["kind"]),
+                          only=(lambda v: v[0].startswith(want)) if want else None)
